@@ -36,9 +36,34 @@ PYFORMS = {
     # (attribute first) and item fallback for a missing attribute
     "dict_method": "(dd.get('nokey') or %s)",
     "dict_item": "(dd.x and %s)",
+    # a *called* dotted name whose last part is only reachable by item
+    # lookup: on a dict and on an object that offers __getitem__ only
+    "dict_call": "dd.ident(%s)",
+    "dict_call_kw": "dd.ident(v=%s)",
+    "item_only": "(io.x and %s)",
+    "item_only_call": "io.ident(%s)",
 }
+
+
+def _ident(v):
+    return v
+
+
+class ItemOnly:
+    """Offers its members through __getitem__ only."""
+    __slots__ = ("_d",)
+
+    def __init__(self, d):
+        self._d = d
+
+    def __getitem__(self, key):
+        return self._d[key]
+
+
 RENDER_ARGS = {"a": "A", "kw": "K", "n": "N",
-               "dd": {"get": "G", "keys": "K", "items": "I", "x": 1}}
+               "dd": {"get": "G", "keys": "K", "items": "I", "x": 1,
+                      "ident": _ident},
+               "io": ItemOnly({"x": 1, "ident": _ident})}
 
 TAGS = ["div", "span", "p", "b", "ul", "li", "section", "em"]
 
